@@ -38,7 +38,8 @@ pub fn run(args: &Args) -> i32 {
     run_cases(args, 0xC12, |case| {
         let mut rng = case.rng.fork();
         // a third of the cases: squeeze-focused sweep over (w, h) around lane multiples
-        let sweep = rng.chance(1, 3);
+        let tiny = args.extra.contains_key("tiny");
+        let sweep = tiny || rng.chance(1, 3);
         let mut opts = ImgOpts { narrow: true, allow_float: false, max_dim: if thorough { 600 } else { 300 }, ..Default::default() };
         let mut kind = "random";
         if sweep {
@@ -49,7 +50,12 @@ pub fn run(args: &Args) -> i32 {
                     _ => rng.u32range(250, 262),
                 }
             };
-            let (w, h) = (dim(&mut rng), dim(&mut rng));
+            let (w, h) = if tiny {
+                // Miri: small, but wide enough for the vector bodies (>16 / >32 columns)
+                (*rng.pick(&[17u32, 18, 33, 35, 40, 9]), *rng.pick(&[1u32, 2, 8, 9, 17]))
+            } else {
+                (dim(&mut rng), dim(&mut rng))
+            };
             opts.fixed_dims = Some((w, h));
             opts.max_extra = 1;
             opts.allow_local = false;
